@@ -90,7 +90,9 @@ class Machine(object):
         from Crypto.Protocol.SecretSharing import Shamir, _Element
         k, n, ssss = case["k"], case["n"], case["ssss"]
         secret = tape_bytes(case["secret"][0], case["secret"][1], 1)
-        tape = tape_bytes(case["tape"], case["tseed"], k - 1)
+        # k-1 blocks of the chosen pattern, then spare seeded blocks: an implementation that draws more than k-1
+        # coefficients (e.g. re-draws "bad" ones) is judged by the coefficient oracle, not by tape exhaustion
+        tape = tape_bytes(case["tape"], case["tseed"], k - 1) + data("spare%s" % case["tseed"], 16 * 6)
         ctx.nontrivial = True
         ctx.state((k, min(n, 16), ssss, case["tape"], case["secret"][0]))
         entropy.set_tape(tape)
